@@ -1,5 +1,6 @@
 import BS.Model.Sem
 import Driver.Prog
+import Driver.C17
 namespace Driver.C01
 open BS.Prog BS.Sem BS.KV Driver
 
@@ -76,6 +77,12 @@ def checkProgram (prog : String) (results : List Shards) (resultCounters : List 
           let sh := env.getD idx default
           let wrows := (sh.rows.getD (toNat! shard) []).map showKV
           let (rows, eofs, lastEof, _) := parseWriterLog log
+          if (feedsHead p).getD idx false then
+            -- pipelined into a Head: the writer sees a prefix of the shard, and end-of-stream only if the Head read that far
+            if !(C17.isPrefix rows wrows) || eofs > 1 then
+              throw s!"WriterFunc {node} shard {shard} (under a Head) observed [{joinWith ";" rows}], not a prefix of [{joinWith ";" wrows}]"
+            if rows != wrows || eofs != 1 then
+              throw s!"WriterFunc {node} shard {shard} is pipelined into a Head and observed only what the Head pulled: {rows.length} of {wrows.length} rows, end-of-stream {eofs} times"
           if !sameRows sh.ordered rows wrows then throw s!"WriterFunc {node} shard {shard} observed [{joinWith ";" rows}], the shard holds [{joinWith ";" wrows}]"
           if eofs != 1 || !lastEof then throw s!"WriterFunc {node} shard {shard}: end-of-stream observed {eofs} times"
         | _ => throw "unparsable writer key"
